@@ -773,6 +773,31 @@ MUTANTS = [
                     exported = true;
                 }""", """                    self.export_item(state, item, name, *span, false)?;
                 }""")]),
+    dict(id="c14-decoder-eof-computed", prop="C14", expect="R14.9|whole-input", file="crates/wac-types/src/package.rs",
+         old="""            match parser.parse(cur, true)? {""", new="""            match parser.parse(cur, cur.len() < 8)? {"""),
+    dict(id="c13-result-args-swapped", prop="C13", expect="R13.11|order|ty|Type::Result", file="crates/wac-parser/src/ast/printer.rs",
+         old="""                    write!(self.writer, "result<")?;
+                    self.ty(ok)?;
+                    write!(self.writer, ", ")?;
+                    self.ty(err)?;""",
+         new="""                    write!(self.writer, "result<")?;
+                    self.ty(err)?;
+                    write!(self.writer, ", ")?;
+                    self.ty(ok)?;"""),
+    dict(id="c17-nested-not-recursive", prop="C17", expect="R17.1|nested-any-depth", file="crates/wac-resolver/src/visitor.rs",
+         old="""            PrimaryExpr::Nested(e) => self.expr(this, &e.inner),""",
+         new="""            PrimaryExpr::Nested(e) => Ok(matches!(e.inner.primary, PrimaryExpr::Ident(_)) || true),"""),
+    dict(id="c06-unregister-early-return", prop="C06", expect="R06.6|unregister-complete", file="crates/wac-graph/src/graph.rs",
+         old="""        // Remove exports and definitions associated with the package before
+        // removing nodes, as retain_nodes invalidates the node indices.""",
+         new="""        if self.graph.node_count() == 0 {
+            return;
+        }
+        // Remove exports and definitions associated with the package before
+        // removing nodes, as retain_nodes invalidates the node indices."""),
+    dict(id="c01-instances-looked-up-by-import-name", prop="C01", expect="R01.3|R14.8/lookup-key|instances", file="crates/wac-graph/src/graph.rs",
+         old="""                if let Some(index) = state.current.instances.get(id) {""",
+         new="""                if let Some(index) = state.current.instances.get(name) {"""),
     dict(id="c12-lexical-comment-needs-newline", prop="C12", expect="R12.10|pattern|Token::Comment", file="crates/wac-parser/src/lexer.rs",
          old="""    #[regex(r"//[^\\n]*", logos::skip)]""", new="""    #[regex(r"//[^\\n]*\\n", logos::skip)]"""),
     dict(id="c12-lexical-ident-digit-start", prop="C12", expect="R12.10|pattern|Token::Ident", file="crates/wac-parser/src/lexer.rs",
